@@ -9,6 +9,10 @@ NOTE = ("Trusted: Lean 4.33 kernel; axioms propext, Classical.choice, Quot.sound
         "harness/translate.py; the correspondence check (differential testing, generator quality bounds what it sees). ")
 
 CHECKS = {
+    "C05": dict(
+        text="Proved for ALL inputs/histories on the DataSet model: ascending input + mask presents exactly the supplied (f,Z,mask) triples reversed and equals the descending construction with re-indexed mask (construct_asc_refines, construct_asc_eq_desc); representation invariant and frequency immutability over every operation history (step_inv, history_inv); low_pass/high_pass/subtract act on each point's own data (…_refines); unmasked+masked views partition the full view in every reachable state (views_partition_reachable); export->import is the identity, also without optional keys, and repeatable (from_dict_to_dict, from_dict_without_mask); caller's mask untouched. The model is tied to /repo by replaying thousands of random operation histories on the real DataSet and comparing every observation after every step; an independent list-of-triples reference is checked at the same time.",
+        ref="§4 C05", tech=TECH_H,
+        note=NOTE + "Frequencies are modelled as integers (any strict linear order; the harness sends ranks), impedances as integers with subtraction; numpy array aliasing and float formatting of JSON are exercised by the correspondence only."),
     "C04": dict(
         text="Totality of parse_cdc proved for ALL strings on the model of tokenizer+parser (no TypeError/IndexError/KeyError/AttributeError/OverflowError, all loops and the recursive descent terminate: theorems C04.parse_cdc_total, tokenizer_total, main_loop_pushes_one); the model is tied to /repo by running it and the real parser on every sequence of <=3 lexical atoms, mutations of valid codes and random strings. PARTIAL: 'accepted codes can be simulated / re-serialised' is decided by the direct oracle on the implementation only; CPython's recursion limit is not modelled.",
         ref="§4 C04", tech=TECH_H,
